@@ -628,5 +628,142 @@ theorem fromSan_rejects_castle (T : Tables) (b : Board) (s : List Char)
   intro h
   exact hn (List.contains_iff_mem.1 h)
 
+/-! ### against FIDE legality (needs C01 for the board at hand) -/
+
+theorem pseudoLegal_src {p : Pos} {m : Move} (h : pseudoLegal p m = true) :
+    ∃ pc, p.board m.src = some (pc, p.stm) := by
+  unfold pseudoLegal at h
+  cases hb : p.board m.src with
+  | none => rw [hb] at h; cases h
+  | some x =>
+    obtain ⟨pc, c'⟩ := x
+    rw [hb] at h
+    simp only [Bool.and_eq_true, beq_iff_eq] at h
+    exact ⟨pc, by rw [h.1.1]⟩
+
+theorem pseudoLegal_promo {p : Pos} {m : Move} (h : pseudoLegal p m = true) :
+    m.promo ∈ [none, some .queen, some .rook, some .bishop, some .knight] := by
+  unfold pseudoLegal at h
+  cases hb : p.board m.src with
+  | none => rw [hb] at h; cases h
+  | some x =>
+    obtain ⟨pc, c'⟩ := x
+    rw [hb] at h
+    simp only [Bool.and_eq_true] at h
+    obtain ⟨_, h⟩ := h
+    have hn : m.promo.isNone = true → m.promo ∈ [none, some Piece.queen, some .rook, some .bishop, some .knight] := by
+      intro h; cases hm : m.promo <;> simp [hm] at h ⊢
+    cases pc
+    · simp only [Bool.and_eq_true] at h
+      have h := h.1
+      split at h
+      · cases hm : m.promo with
+        | none => simp
+        | some q => rw [hm] at h; cases q <;> simp [promoPieces] at h ⊢
+      · exact hn h
+    all_goals (simp only [Bool.and_eq_true] at h; exact hn h.1)
+
+theorem legal_mem_candidates {p : Pos} {m : Move} (h : legal p m = true) : m ∈ candidates p := by
+  unfold legal at h
+  simp only [Bool.and_eq_true] at h
+  obtain ⟨pc, hs⟩ := pseudoLegal_src h.1
+  have hp := pseudoLegal_promo h.1
+  unfold candidates
+  simp only [List.mem_flatMap, List.mem_filter, List.mem_map]
+  refine ⟨m.src, ⟨by simp [allSq, List.mem_finRange], by simp [Pos.colorAt, hs]⟩, m.dst,
+    by simp [allSq, List.mem_finRange], m.promo, ?_, rfl⟩
+  simpa [promoPieces] using hp
+
+theorem sq?_some {f r : Int} {x : Sq} (h : sq? f r = some x) : x.file = f ∧ x.rank = r := by
+  unfold sq? at h
+  split at h
+  · injection h with h
+    subst h
+    unfold Sq.file Sq.rank
+    simp only
+    omega
+  · cases h
+
+theorem king_step_file {a b : Sq} (h : (allDirs.any fun u => onRay a u 1 b) = true) :
+    (b.file - a.file).natAbs ≠ 2 := by
+  simp only [List.any_eq_true] at h
+  obtain ⟨u, _, hu⟩ := h
+  unfold onRay step? at hu
+  simp only [Bool.and_eq_true, beq_iff_eq] at hu
+  have := (sq?_some hu.2).1
+  cases u <;> simp only [Dir.df] at this <;> omega
+
+theorem castle_shape {p : Pos} {m : Move} (hl : pseudoLegal p m = true) (hc : isCastle p m = true) :
+    m = ⟨mkSq p.stm.backrank 4, mkSq p.stm.backrank (if m.dst.file > m.src.file then 6 else 2), none⟩ := by
+  unfold isCastle at hc
+  unfold pseudoLegal at hl
+  cases hb : p.board m.src with
+  | none => rw [hb] at hl; cases hl
+  | some x =>
+    obtain ⟨pc, c'⟩ := x
+    rw [hb] at hl hc
+    cases pc <;> simp only [Bool.false_and, Bool.true_and, Bool.false_eq_true] at hc
+    simp only [Bool.and_eq_true, Bool.or_eq_true, beq_iff_eq] at hl hc
+    obtain ⟨_, hpr, hmv⟩ := hl
+    rcases hmv with hmv | hmv
+    · unfold attacks at hmv
+      rw [hb] at hmv
+      exact absurd hc (king_step_file hmv)
+    · obtain ⟨⟨⟨⟨h1, h2⟩, h3⟩, h4⟩, _⟩ := hmv
+      obtain ⟨src, dst, promo⟩ := m
+      simp only at h1 h2 h3 h4 hpr ⊢
+      have hp : promo = none := by cases promo <;> simp at hpr ⊢
+      subst hp
+      have hs : src = mkSq p.stm.backrank 4 := by
+        apply Fin.ext
+        unfold Sq.file at h2
+        unfold Sq.rank at h1
+        revert h1
+        cases p.stm <;> intro h1 <;> simp only [Color.homeRank, Color.backrank, mkSq] at h1 ⊢ <;> omega
+      have hd : dst = mkSq p.stm.backrank (if dst.file > src.file then 6 else 2) := by
+        apply Fin.ext
+        unfold Sq.file at h2 h4 ⊢
+        unfold Sq.rank at h1 h3
+        revert h1
+        split <;> rename_i hgt <;>
+        cases p.stm <;> intro h1 <;> simp only [Color.homeRank, Color.backrank, mkSq] at h1 ⊢ <;> omega
+      rw [← hd, ← hs]
+
+/-- "the generated moves are the FIDE-legal moves, each once" (the conclusion of C01) for this board -/
+def GenExact (T : Tables) (b : Board) : Prop :=
+  (b.legalMoves T).Nodup ∧ ∀ m, m ∈ b.legalMoves T ↔ (legal b.abs m = true ∧ m ∈ candidates b.abs)
+
+theorem fromSan_complete_of_genExact (T : Tables) (b : Board) (ha : Agree b) (hg : GenExact T b)
+    (m : Move) (s : List Char) (hs : IsSpelling b.abs m s) : fromSan T b s = .ok m := by
+  obtain ⟨hnd, hex⟩ := hg
+  obtain ⟨hleg, hcase⟩ := hs
+  have hm : m ∈ b.legalMoves T := (hex m).2 ⟨hleg, legal_mem_candidates hleg⟩
+  have hpl : pseudoLegal b.abs m = true := by
+    unfold legal at hleg
+    simp only [Bool.and_eq_true] at hleg
+    exact hleg.1
+  rcases hcase with ⟨hc, sfx, hs⟩ | ⟨hc, d, sfx, ep, hun, _, _, hs⟩
+  · have hshape := castle_shape hpl hc
+    by_cases hgt : m.dst.file > m.src.file
+    · simp only [if_pos hgt] at hshape hs
+      subst hs
+      have h2 := fromSan_castle_short T b sfx (by rw [hshape] at hm; exact hm)
+      rw [hshape]
+      exact h2
+    · simp only [if_neg hgt] at hshape hs
+      subst hs
+      have h2 := fromSan_castle_long T b sfx (by rw [hshape] at hm; exact hm)
+      rw [hshape]
+      exact h2
+  · subst hs
+    obtain ⟨pc, hb⟩ := pseudoLegal_src hpl
+    refine fromSan_spell T b m d sfx ep pc _ hnd hm ha hb (pseudoLegal_promo hpl) ?_
+    intro m' hm' hag
+    have hm'' := (hex m').1 hm'
+    unfold unambiguous at hun
+    rw [List.all_eq_true] at hun
+    have := hun m' (by unfold Chess.legalMoves; exact List.mem_filter.2 ⟨hm''.2, hm''.1⟩)
+    simpa [hag] using this
+
 end San
 end Chess
